@@ -40,7 +40,8 @@
    lower-case to themselves. *)
 Require Import Model.Split Model.Trie Model.Licensing.
 Require Import Model.Base Model.Expr Model.Split Model.LicTok Model.BoolParse Proofs.BoolParse Proofs.Render.
-Require Import Proofs.Kinds Proofs.RenderKinds Proofs.RenderWords Proofs.Resplit Proofs.Reparse Proofs.ParseWf Proofs.ParseRenderable Proofs.TableOk.
+Require Import Proofs.Kinds Proofs.RenderKinds Proofs.RenderWords Proofs.Resplit Proofs.Reparse Proofs.ParseWf Proofs.ParseRenderable Proofs.TableOk
+               Proofs.Strings Proofs.Accepted.
 
 Theorem C05_render_tokens_roundtrip : forall i0 wrap e, wf e = true ->
   bparse (tok_or (to_or i0 wrap e)) = POk e.
@@ -230,7 +231,7 @@ Theorem C05_round_trip_over_plain_tables : forall O, is_space O 32%N = true ->
   (forall n v, In (n, v) (flat_map (entry_adds O) T) -> forall w, In w (lwords O n) -> is_keyword_str w = false) ->
   (forall e, In e T -> mk_key O (ekey e) = Ok (ekey e)) ->
   (forall n1 v1 n2 v2, In (n1, v1) (keyword_adds ++ flat_map (entry_adds O) T) -> In (n2, v2) (keyword_adds ++ flat_map (entry_adds O) T) ->
-     lwords O n1 = lwords O n2 -> v1 = v2) ->
+     lwords O n1 <> [] -> lwords O n1 = lwords O n2 -> v1 = v2) ->
   forall text wrap e, parse_tokens O T false false text = Ok e ->
   parse_tokens O T false false (render_with key wrap e) = Ok e /\
   forall e', wf e' = true -> incl (literals e') (literals e) -> parse_tokens O T false false (render_with key wrap e') = Ok e'.
@@ -252,8 +253,64 @@ Proof.
   - split; reflexivity.
   - intros n v Hin. vm_compute in Hin. repeat (destruct Hin as [Hin|Hin]; [inversion Hin; subst n v; nokw5|]). destruct Hin.
   - intros x Hx. simpl in Hx. repeat (destruct Hx as [<-|Hx]; [vm_compute; reflexivity|]). destruct Hx.
-  - intros n1 v1 n2 v2 Hi1 Hi2 E. vm_compute in Hi1, Hi2.
+  - intros n1 v1 n2 v2 Hi1 Hi2 _ E. vm_compute in Hi1, Hi2.
     repeat (destruct Hi1 as [Hi1|Hi1];
             [inversion Hi1; subst n1 v1; repeat (destruct Hi2 as [Hi2|Hi2]; [inversion Hi2; subst n2 v2; first [reflexivity | vm_compute in E; discriminate E]|]); destruct Hi2|]).
     destruct Hi1.
+Qed.
+
+(* (0''') over every table Licensing() accepted: the table conditions but one are theorems.  LicenseSymbol() applied to a key it
+   returned gives that key again (mk_key_idem), and a table validate_symbols let through has no two names of different licenses
+   with the same lower-cased words once no name holds an operator word or a parenthesis (accepted_names_unambiguous, through the
+   order-free rule of C14).  What remains is the one condition Licensing() does not check: no operator word inside a name. *)
+Theorem C05_round_trip_over_accepted_tables : forall O, is_space O 32%N = true ->
+  (forall c, In c [65; 78; 68; 79; 82; 87; 73; 84; 72; 40; 41]%N -> is_space O c = false) ->
+  (lower O S_AND = s_and /\ lower O S_OR = s_or /\ lower O S_WITH = s_with /\ lower O s_lpar = s_lpar /\ lower O s_rpar = s_rpar) ->
+  (forall c, In c [97; 110; 100; 111; 114; 119; 105; 116; 104; 40; 41]%N -> is_space O c = false /\ lower_ch O c = [c]) ->
+  (is_wordch O 40%N = false /\ is_wordch O 41%N = false) ->
+  (forall c, is_space O c = true -> lower_ch O c = [c]) ->
+  (forall c, is_space O c = false -> lower_ch O c <> [] /\ nospace O (lower_ch O c)) ->
+  forall raw T : list entry, new_licensing O raw = Ok T ->
+  (forall n v, In (n, v) (flat_map (entry_adds O) T) -> forall w, In w (lwords O n) -> is_keyword_str w = false) ->
+  forall text wrap e, parse_tokens O T false false text = Ok e ->
+  parse_tokens O T false false (render_with key wrap e) = Ok e /\
+  forall e', wf e' = true -> incl (literals e') (literals e) -> parse_tokens O T false false (render_with key wrap e') = Ok e'.
+Proof.
+  intros O H1 H2 H3 H4 H5 H6 H7 raw T HB HN text wrap e Hp. split.
+  - exact (accepted_table_round_trip O H1 H2 H3 H4 H5 H6 H7 raw T HB HN text wrap e Hp).
+  - intros e' W I. exact (accepted_table_round_trip_derived O H1 H2 H3 H4 H5 H6 H7 raw T HB HN text wrap e e' Hp W I).
+Qed.
+Print Assumptions C05_round_trip_over_accepted_tables.
+
+(* non-vacuity: Licensing() accepts the entries of T5 as they are, and the ASCII tables meet the two facts on lower-casing *)
+From Coq Require Import Lia.
+Example ascii_lower_space : forall c, is_space ascii_oracle c = true -> lower_ch ascii_oracle c = [c].
+Proof.
+  intros c H. cbn [is_space lower_ch ascii_oracle] in *. destruct (N.leb 65 c && N.leb c 90) eqn:E; [|reflexivity]. exfalso.
+  apply andb_true_iff in E as [E1 E2]. apply N.leb_le in E1, E2.
+  apply orb_true_iff in H as [H|H]; apply andb_true_iff in H as [A B]; apply N.leb_le in A, B; lia.
+Qed.
+Example ascii_lower_nospace : forall c, is_space ascii_oracle c = false ->
+  lower_ch ascii_oracle c <> [] /\ nospace ascii_oracle (lower_ch ascii_oracle c).
+Proof.
+  intros c H. cbn [lower_ch ascii_oracle]. destruct (N.leb 65 c && N.leb c 90) eqn:E; (split; [discriminate|]); unfold nospace; cbn [forallb].
+  - apply andb_true_iff in E as [E1 E2]. apply N.leb_le in E1, E2. rewrite andb_true_r. apply negb_true_iff.
+    cbn [is_space ascii_oracle]. apply orb_false_iff. split; apply andb_false_iff.
+    + right. apply N.leb_gt. lia.
+    + right. apply N.leb_gt. lia.
+  - rewrite H. reflexivity.
+Qed.
+Example C05_example_accepted_table : forall wrap e, parse_tokens ascii_oracle T5 false false tx5 = Ok e ->
+  parse_tokens ascii_oracle T5 false false (render_with key wrap e) = Ok e.
+Proof.
+  intros wrap e Hp.
+  apply (C05_round_trip_over_accepted_tables ascii_oracle eq_refl) with (raw := T5) (text := tx5); try exact Hp.
+  - intros c Hc. simpl in Hc. repeat (destruct Hc as [<-|Hc]; [reflexivity|]). destruct Hc.
+  - repeat split; reflexivity.
+  - intros c Hc. simpl in Hc. repeat (destruct Hc as [<-|Hc]; [split; reflexivity|]). destruct Hc.
+  - split; reflexivity.
+  - exact ascii_lower_space.
+  - exact ascii_lower_nospace.
+  - vm_compute. reflexivity.
+  - intros n v Hin. vm_compute in Hin. repeat (destruct Hin as [Hin|Hin]; [inversion Hin; subst n v; nokw5|]). destruct Hin.
 Qed.
